@@ -605,6 +605,66 @@ def replay_layouts(states, extra):
     return {'n': n, 'calls': n, 'keys': sorted(keys), 'bad': bad, 'sample': sample}
 
 
+def replay_gmap(states, extra):
+    """part gmap: TLC's group map for every valid grouping.  (1) drift monitor: the implementation's own helper
+    functions agree with GroupMap / Groupify / Ungroupify (internal names: a mismatch is drift, never a verdict);
+    (2) verdict level, on a sample: a real two-level ordered ListGrader with this grouping must report, at every box, the
+    result of the leaf answer the spec's group map assigns to that box."""
+    from engine import repo
+    repo.activate()
+    from mitxgraders import ListGrader
+    n = calls = 0
+    drift = []
+    bad = []
+    keys = set()
+    sample = None
+    every = extra['sample_every']
+    observable = all(hasattr(ListGrader, a) for a in ('create_grouping_map', 'groupify_list', 'ungroupify_list'))
+    for st in states:
+        c = st['c']
+        if c['kind'] != 'gmap':
+            continue
+        n += 1
+        g = st['aux']['g']
+        gm = st['out']
+        keys.add(('gmap', len(g), len(gm)))
+        if observable:
+            try:
+                real = ListGrader.create_grouping_map(list(g))
+                labels = ['x%d' % i for i in range(len(g))]
+                grouped = ListGrader.groupify_list(real, labels)
+                back = ListGrader.ungroupify_list(real, grouped)
+                want = [[labels[p - 1] for p in grp] if len(grp) > 1 else labels[grp[0] - 1] for grp in gm]
+                if [[p + 1 for p in grp] for grp in real] != gm or grouped != want or back != labels:
+                    if len(drift) < 3:
+                        drift.append('grouping %r: create_grouping_map/groupify_list/ungroupify_list give %r / %r / %r, '
+                                     'the specification has group map %r' % (g, real, grouped, back, gm))
+            except Exception as e:  # noqa
+                if len(drift) < 3:
+                    drift.append('grouping %r: helper raised %s' % (g, type(e).__name__))
+        if (sum((i + 1) * x for i, x in enumerate(g)) + len(g)) % every == 0:
+            calls += 1
+            N = len(g)
+            rank = {}
+            off = 0
+            for grp in gm:
+                for i, p in enumerate(grp):
+                    rank[p] = off + i + 1
+                off += len(grp)
+            C = [[1 if q == rank[p] else 0 for q in range(1, N + 1)] for p in range(1, N + 1)]
+            cc = {'kind': 'nested', 'outOrd': True, 'inOrd': True, 'pcOut': True, 'pcIn': True}
+            obs = observe_two_level(cc, {'g': g, 'C': C})
+            want = [[rank[p], 1, 'true'] for p in range(1, N + 1)]
+            if obs != want:
+                b = {'kind': 'nested', 'grouping': g, 'outOrd': True, 'inOrd': True, 'pcOut': True, 'pcIn': True, 'C': C,
+                     'observed': obs, 'allowed': [want]}
+                bad.append(b if len(bad) < 40 else None)
+            if sample is None:
+                sample = {'grouping': g, 'group_map': gm, 'observed': obs}
+    return {'n': n, 'calls': calls, 'keys': sorted(keys), 'bad': bad, 'sample': sample, 'drift': drift,
+            'observable': observable}
+
+
 # ------------------------------------------------------------------------------------------------ random driver
 def rand_partition_groups(rng, n, sizes):
     pos = list(range(1, n + 1))
@@ -868,6 +928,8 @@ def flat_class(b):
     js = [e[1] for e in obs]
     if len(set(js)) != len(js):
         return 'bijection'
+    if len(set(e[0] for e in obs)) == 1 and obs[0][0] not in set(v[0][0] for v in allowed):
+        return 'bestlist'
     if b.get('ordered') or b.get('outOrd'):
         return 'order'
     return 'assignment'
@@ -892,13 +954,18 @@ def layout_class(b):
 def run(ctx):
     from engine.main import Machinery
     total_calls = 0
-    parts = [('flat', 'replay_flat'), ('group', 'replay_layouts'), ('nested', 'replay_layouts')]
+    parts = [('flat', 'replay_flat'), ('group', 'replay_layouts'), ('nested', 'replay_layouts'), ('gmap', 'replay_gmap')]
     for part, fn in parts:
         d = os.path.join(ctx.scratch, 'cases_' + part)
         ctx.tlc('graders/MC_ListGrading.tla', 'graders/MC_ListGrading_%s_%s.cfg' % (part, ctx.tier), dump=d, timeout=3000)
-        res = dump.parallel(d + '.dump', 'engine.adapters.c05', fn, extra={'full_perms': not ctx.quick})
+        res = dump.parallel(d + '.dump', 'engine.adapters.c05', fn,
+                            extra={'full_perms': not ctx.quick, 'sample_every': 4 if ctx.quick else 24})
         os.remove(d + '.dump')
         for r in res:
+            for msg in r.get('drift', []):
+                ctx.note_drift(msg)
+            if r.get('observable') is False:
+                ctx.extra['grouping_helpers'] = 'not observable (helper functions renamed); drift monitor skipped'
             ctx.traces_validated += r['n']
             ctx.evaluations += r['calls']
             total_calls += r['calls']
